@@ -634,6 +634,165 @@ def rule_r7(rep, program: Program, control: bool = True):
     return r
 
 
+# --------------------------------------------------------------------------- R8: cached aliases
+VIEW_METHODS = {"reshape", "ravel", "view", "squeeze", "transpose", "swapaxes", "flatten_view"}
+VIEW_FUNCS = {"np.asarray", "np.atleast_1d", "np.atleast_2d", "np.asanyarray", "np.ravel", "np.reshape", "np.squeeze", "np.transpose", "np.broadcast_to"}
+
+
+def pass_through_classes(program: Program):
+    """Matrix classes whose `M @ x` (left) / `x @ M` (right) may return the array x itself rather
+    than a new array; least fixed point (a product passes through iff one of its factors may)."""
+    base = program.classes.get("Matrix")
+    if base is None:
+        raise AnalysisError("Matrix base class not found")
+    ks = [k for k in program.classes.values() if base in k.mro]
+    P = {"_left_matrix_multiply": set(), "_right_matrix_multiply": set()}
+    n_bodies = 0
+    changed = True
+    while changed:
+        changed = False
+        n_bodies = 0
+        for k in ks:
+            for meth in P:
+                f = k.methods.get(meth)
+                if f is None or f.is_abstract:
+                    continue
+                n_bodies += 1
+                if k.name in P[meth]:
+                    continue
+                if _returns_param(f, P):
+                    P[meth].add(k.name)
+                    changed = True
+    return P, n_bodies
+
+
+def _returns_param(f, P) -> bool:
+    """May a return value of this _left/_right_matrix_multiply be its array parameter itself?"""
+    param = f.params[1]
+    flags = {param: True}
+
+    def alias(e):
+        if isinstance(e, ast.Name):
+            return flags.get(e.id, False)
+        if isinstance(e, ast.BinOp) and isinstance(e.op, ast.MatMult):
+            # matrix @ array: passes through iff some class may pass through on that side;
+            # a private attribute (self._array, ...) is a plain ndarray: ndarray @ ndarray is new
+            def is_array(x):
+                return is_self_attr(x) and x.attr.startswith("_") or isinstance(x, ast.Call) and norm(x.func).startswith("np.")
+
+            return (alias(e.right) and not is_array(e.left) and bool(P["_left_matrix_multiply"])) or (alias(e.left) and not is_array(e.right) and bool(P["_right_matrix_multiply"]))
+        if isinstance(e, ast.Attribute) and e.attr == "T":
+            return alias(e.value)
+        if isinstance(e, ast.Subscript):
+            return alias(e.value)
+        if isinstance(e, ast.Call) and isinstance(e.func, ast.Attribute) and e.func.attr in VIEW_METHODS:
+            return alias(e.func.value)
+        if isinstance(e, ast.Call) and norm(e.func) in VIEW_FUNCS and e.args:
+            return alias(e.args[0])
+        if isinstance(e, ast.IfExp):
+            return alias(e.body) or alias(e.orelse)
+        return False
+
+    result = []
+
+    def block(stmts):
+        for st in stmts:
+            if isinstance(st, ast.Assign) and len(st.targets) == 1 and isinstance(st.targets[0], ast.Name):
+                flags[st.targets[0].id] = alias(st.value)
+            elif isinstance(st, ast.For):
+                # documented invariant of the product classes: at least one factor, so the body runs;
+                # iterate the body to a fixed point of the flags
+                for _ in range(3):
+                    block(st.body)
+            elif isinstance(st, ast.If):
+                before = dict(flags)
+                block(st.body)
+                a = dict(flags)
+                flags.clear()
+                flags.update(before)
+                block(st.orelse)
+                for key in set(a) | set(flags):
+                    flags[key] = a.get(key, False) or flags.get(key, False)
+            elif isinstance(st, ast.Return) and st.value is not None:
+                result.append(alias(st.value))
+            elif isinstance(st, (ast.With, ast.Try)):
+                block(st.body)
+
+    block(f.body_without_docstring())
+    return any(result)
+
+
+def rule_r8(rep, program: Program):
+    r = rep.rule("R8", "a cached value is never (a view of) a state variable array itself: copies share cache entries, so an in-place update of one state's array would change what another state's cache holds", floor=15)
+    P, n_bodies = pass_through_classes(program)
+    r.inst({"matrix multiply bodies analysed": n_bodies, "left pass-through": sorted(P["_left_matrix_multiply"]), "right pass-through": sorted(P["_right_matrix_multiply"])})
+    inplace = []
+    for fn in program.all_functions():
+        for n in ast.walk(fn.node):
+            if isinstance(n, ast.AugAssign) and _root_state_var(n.target):
+                inplace.append(f"{fn.qualname}: {norm(n)[:50]}")
+    r.inst({"in-place updates of state variables (through the setter)": len(inplace), "sample": inplace[:4]})
+    seen = set()
+    for k, name, f in cached_pairs(program):
+        if f.qualname in seen:
+            continue
+        seen.add(f.qualname)
+        state_p = f.params[1] if len(f.params) > 1 else None
+        locals_: dict[str, list[ast.expr]] = {}
+        for n in ast.walk(f.node):
+            if isinstance(n, ast.Assign) and len(n.targets) == 1 and isinstance(n.targets[0], ast.Name):
+                locals_.setdefault(n.targets[0].id, []).append(n.value)
+
+        def alias(e, depth=0, k=k, f=f, state_p=state_p, locals_=locals_):
+            """Set of state variables the value of e may alias."""
+            if depth > 6:
+                return set()
+            if isinstance(e, ast.Attribute) and isinstance(e.value, ast.Name) and e.value.id == state_p and not e.attr.startswith("_"):
+                return {e.attr}
+            if isinstance(e, ast.Name):
+                out = set()
+                for v in locals_.get(e.id, []):
+                    out |= alias(v, depth + 1)
+                return out
+            if isinstance(e, ast.BinOp) and isinstance(e.op, ast.MatMult):
+                out = set()
+                if P["_left_matrix_multiply"]:
+                    out |= alias(e.right, depth + 1)
+                if P["_right_matrix_multiply"]:
+                    out |= alias(e.left, depth + 1)
+                return out
+            if isinstance(e, ast.Attribute) and e.attr == "T":
+                return alias(e.value, depth + 1)
+            if isinstance(e, ast.Subscript):
+                return alias(e.value, depth + 1)
+            if isinstance(e, ast.Call) and isinstance(e.func, ast.Attribute) and e.func.attr in VIEW_METHODS:
+                return alias(e.func.value, depth + 1)
+            if isinstance(e, ast.Call) and norm(e.func) in VIEW_FUNCS and e.args:
+                return alias(e.args[0], depth + 1)
+            if isinstance(e, ast.IfExp):
+                return alias(e.body, depth + 1) | alias(e.orelse, depth + 1)
+            if isinstance(e, ast.Tuple):
+                out = set()
+                for x in e.elts:
+                    out |= alias(x, depth + 1)
+                return out
+            return set()
+
+        rets = [n for n in ast.walk(f.node) if isinstance(n, ast.Return) and n.value is not None]
+        al = set()
+        where = None
+        for rt in rets:
+            a = alias(rt.value)
+            if a:
+                al |= a
+                where = where or rt
+        r.inst({"cached method": f.qualname, "may alias": sorted(al)})
+        if al and inplace:
+            via = " (through a matrix product that returns its operand for " + "/".join(sorted(P["_left_matrix_multiply"] | P["_right_matrix_multiply"])) + ")" if not (isinstance(where.value, ast.Attribute) and norm(where.value).startswith(f"{state_p}.")) else ""
+            r.violate(PROP, f"{f.qualname}:caches-alias-of:{','.join(sorted(al))}", f"{f.qualname} caches `{norm(where.value)}`, which may be the array object of state variable {sorted(al)} itself{via}: ChainState.copy() copies the variables but shares cache entries, so after `c = s.copy()` an in-place update of s ({inplace[0]} and {len(inplace) - 1} more sites) silently changes the value cached in c - it no longer equals a from-scratch evaluation on c", node=where, file=f.file)
+    return r
+
+
 def run(rep, program: Program, tier: str) -> None:
     rep.explanation = (
         "Static effect analysis of the cache protocol: for every concrete System class the "
@@ -663,5 +822,6 @@ def run(rep, program: Program, tier: str) -> None:
     rule_r5(rep, program)
     rule_r6(rep, program)
     rule_r7(rep, program)
+    rule_r8(rep, program)
     rep.extra["callsites_resolved"] = se.resolved_calls
     rep.extra["callsites_unresolved"] = len(se.unresolved)
